@@ -482,7 +482,11 @@ def rule_cmp1(ctx: Ctx) -> RuleResult:
         if body is not None:
             adds = [norm(s_) for s_ in body]
             a, b = tv
-            sym = any(f"[{a}].add({b})" in s_ for s_ in adds) and any(f"[{b}].add({a})" in s_ for s_ in adds)
+            def _rec(x, y):
+                # D[x].add(y), or the same insertion through update / |= with a one-element display
+                forms = (f"[{x}].add({y})", f"[{x}].update(({y},))", f"[{x}].update([{y}])", f"[{x}].update({{{y}}})", f"[{x}] |= {{{y}}}")
+                return any(fm in s_ for s_ in adds for fm in forms)
+            sym = _rec(a, b) and _rec(b, a)
             ok2 = sym
             why2 = "pair not recorded in both directions" if not sym else ""
     rr.ob(mm.relpath, mm.qualname, "for a, b in combinations(self.models, 2)", "every unordered pair of registered "
